@@ -1417,6 +1417,21 @@ func runC10(r *Rng, tier string, n int) {
 		keys = append(keys, newKey(r, 15, [][]byte{[]byte("z")}))
 	}
 	keys = append(keys, newKey(r, 15, nil)) // the root zone
+	// the largest RSA size Generate offers (4096 bits: a modulus of exactly 512 octets), fixed keys
+	for _, kv := range [][2]string{{RSA4096Pub8, RSA4096Priv8}, {RSA4096Pub10, RSA4096Priv10}} {
+		rr, err := dns.NewRR(kv[0])
+		if err != nil {
+			panic(err)
+		}
+		k := rr.(*dns.DNSKEY)
+		p, err := k.NewPrivateKey(kv[1])
+		if err != nil {
+			Viol("C10/key/rsa4096-not-loadable", "a 4096-bit RSA private key exported by the library cannot be read back: "+err.Error(), nil)
+			continue
+		}
+		pub, _ := base64.StdEncoding.DecodeString(k.PublicKey)
+		keys = append(keys, &keyPair{k: k, priv: p.(crypto.Signer), owner: [][]byte{[]byte("big"), []byte("example")}, pub: pub})
+	}
 	idx := 0
 	for rep := 0; rep < perKey; rep++ {
 		for ti, td := range tdefs {
